@@ -372,6 +372,6 @@ S("C14", "raise on over-long frame", "R1", (H, "            self._goto_hunt_mode
 S("C14", "too-short test compares with an Optional position", "R1", (H, "        elif self._frame.header.header_check_sequence is None:", "        elif len(self._frame) < self._frame.header.information_position:"))
 U("C14", "format field read without the length guard", (H, "        if len(self._frame) >= 2:\n            return self._frame.as_bytes[0] << 8 | self._frame.as_bytes[1]\n        return None", "        return self._frame.as_bytes[0] << 8 | self._frame.as_bytes[1]"))
 S("C14", "P1 sixth character inspected", "R1", (D, "                if line[0] == START_CHARACTER_HEX and line.isascii():", "                if line[0] == START_CHARACTER_HEX and line[5] != 0 and line.isascii():"))
-S("C14", "assert no longer dominated", "R1", (H, "        elif self._frame is not None:  # not in hunt mode\n            self._append_to_frame(current)", "        else:\n            self._append_to_frame(current)"))
+U("C14", "assert no longer dominated (the failing state is unreachable only through an invariant of the trims)", (H, "        elif self._frame is not None:  # not in hunt mode\n            self._append_to_frame(current)", "        else:\n            self._append_to_frame(current)"))
 N("C14", "decode with errors=replace instead of the isascii guard", (D, "                if line[0] == START_CHARACTER_HEX and line.isascii():\n                    line_str = line.decode(\"ascii\")", "                if line[0] == START_CHARACTER_HEX:\n                    line_str = line.decode(\"ascii\", errors=\"replace\")"))
 N("C14", "length guard written as > 1", (H, "        if len(self._frame) >= 2:\n            return self._frame.as_bytes[0] << 8 | self._frame.as_bytes[1]", "        if len(self._frame) > 1:\n            return self._frame.as_bytes[0] << 8 | self._frame.as_bytes[1]"))
